@@ -56,6 +56,8 @@ def plainSession (cfg : LifeCfg) : String :=
 inductive LifeAct where
   | start | stop | restart
   | stopstorm                               -- Stop while clients keep connecting
+  | setpw (pw : String)                     -- the application changes the required password (effective at the next Start)
+  | pingold (tls : Bool)                    -- a client presenting the previous password
   | ping (tls : Bool) (cert : String)       -- connect, one session, disconnect
   | open_ (tls : Bool) (id : String)        -- connect, one session, stay connected
   | cclose (id : String) | rst (id : String) | half (id : String) | quit (id : String) | bad (id : String)
@@ -74,6 +76,9 @@ def lifeStepA (cfg : LifeCfg) (s : LifeSt) : LifeAct → String × LifeSt
   | .start => if s.running then ("err", s) else ("ok", { s with running := true })
   | .stop => ("ok", { s with running := false, conns := [] })
   | .stopstorm => ("ok", { s with running := false, conns := [] })
+  | .setpw _ => ("ok", s)
+  -- after a restart exactly the new password is accepted: the previous one is refused, nothing is executed
+  | .pingold tls => if !cfg.up s tls then ("refused", s) else ("auth-E", s)
   | .restart => ("ok", { s with running := true, conns := [] })
   | .ping tls cert =>
     if !cfg.up s tls then ("refused", s) else
@@ -116,6 +121,8 @@ def parseLifeAct (action : String) : Option LifeAct :=
   | ["start"] => some .start
   | ["stop"] => some .stop
   | ["stopstorm"] => some .stopstorm
+  | ["setpw", pw] => some (.setpw pw)
+  | ["pingold", k] => some (.pingold (k == "t"))
   | ["restart"] => some .restart
   | "ping" :: k :: rest => some (.ping (k == "t") (rest.headD "good"))
   | ["open", k, id] => some (.open_ (k == "t") id)
